@@ -40,7 +40,7 @@ func genLevelValue(t *rapid.T, level string) string {
 
 // TestC18: environment and job variables reach exactly the right task commands.
 func TestC18(t *testing.T) {
-	col := ev.Get("C18", "env", "1-3 pipelines x 1-3 tasks with real processes: each of 6 variable names is assigned to a generated subset of {prunner process, pipeline, task} with distinct values containing spaces, quotes, newlines, $, =, backticks, non-ASCII and the empty string; 2-5 jobs run concurrently, each with its own variables (strings, numbers, booleans, nested maps); every task runs 'vhelper dumpenv' (a real child process), 'vhelper args \"${NAME-<unset>}\"...' (interpreter expansion) and 'vhelper args {{ .var }}...' (template); oracle per name: child value = task value if defined, else pipeline value, else process value, else unset, byte for byte; TASK_NAME = task name; the rendered script shows exactly its own job's variables; a job scheduled with the reserved variable name runs nothing, ends canceled with an error and leaves the job it named unchanged; non-trivial = a name defined at >=2 levels with a shell-special value and >=2 jobs overlapping; distinct by assignment")
+	col := ev.Get("C18", "env", "1-3 pipelines x 1-3 tasks with real processes: each of 6 variable names is assigned to a generated subset of {prunner process, pipeline, task} with distinct values containing spaces, quotes, newlines, $, =, backticks, non-ASCII and the empty string; 2-5 jobs run concurrently, each with its own variables (strings - also with & < > \" + $ ; and URL-like values -, numbers, booleans, nested maps); every task runs 'vhelper dumpenv' (a real child process), 'vhelper args \"${NAME-<unset>}\"...' (interpreter expansion) and 'vhelper args {{ .var }}...' (template); oracle per name: child value = task value if defined, else pipeline value, else process value, else unset, byte for byte; TASK_NAME = task name; the rendered script shows exactly its own job's variables; a job scheduled with the reserved variable name runs nothing, ends canceled with an error and leaves the job it named unchanged; non-trivial = a name defined at >=2 levels with a shell-special value and >=2 jobs overlapping; distinct by assignment")
 	vh := helper(t)
 	rapid.Check(t, func(rt *rapid.T) {
 		c := envCase{proc: map[string]string{}, pipes: map[string]map[string]string{}, tasks: map[string]map[string]map[string]string{}}
@@ -128,8 +128,9 @@ func TestC18(t *testing.T) {
 		for i := 0; i < nJobs; i++ {
 			pn := fmt.Sprintf("p%d", rapid.IntRange(0, nP-1).Draw(rt, "jobPipeline"))
 			vars := map[string]interface{}{
-				"v0":     fmt.Sprintf("job%d-%s", i, rapid.StringMatching(`[a-zA-Z0-9_.-]{0,8}`).Draw(rt, "v0")),
-				"v1":     rapid.StringMatching(`[a-zA-Z0-9_.-]{1,8}`).Draw(rt, "v1"),
+				// rendered inside single quotes: everything but the single quote arrives literally
+				"v0":     fmt.Sprintf("job%d-%s", i, rapid.StringMatching(`[a-zA-Z0-9_.+&<>"=:,;|*$ -]{0,10}`).Draw(rt, "v0")),
+				"v1":     rapid.OneOf(rapid.StringMatching(`[a-zA-Z0-9_.-]{1,8}`), rapid.SampledFrom([]string{"https://example.org/?q=a&page=2", "tel:+49-351", "a<b>c", "say \"hi\"", "50% off; now", "$HOME/{x}} {"})).Draw(rt, "v1"),
 				"num":    float64(rapid.IntRange(0, 100000).Draw(rt, "num")),
 				"flag":   rapid.Bool().Draw(rt, "flag"),
 				"nested": map[string]interface{}{"k": fmt.Sprintf("nk%d", i)},
